@@ -167,6 +167,9 @@ class ContractDB:
         self.files: list[str] = []
         self.spec_funcs: dict[str, ast.FunctionDef] = {}
         self.external_returns: dict[str, ast.expr] = {}  # external method name -> type expression of its result
+        self.aggregates: dict[str, dict] = {}  # name -> {over: owning dict field, fields: [..], contrib: Lambda, cls: class target}
+        self.as_record: set[str] = set()  # non-frozen dataclasses that the code under contract never mutates nor compares by identity
+        self.external_raises: dict[str, list[str]] = {}  # external method / constructor name -> exception classes it may raise
         self.pure_modules: dict[str, str] = {}
         self.ext_module: str | None = None
         self.pure_functions: dict[str, ast.expr] = {}  # repo/external function -> result type; modelled as an uninterpreted function
@@ -204,6 +207,16 @@ class ContractDB:
                             self.ext_module = k.value.value
                         else:
                             self.external_returns[k.arg] = k.value
+                elif n == "aggregate":
+                    kw = {k.arg: k.value for k in c.keywords}
+                    self.aggregates[c.args[0].value] = {"over": kw["over"].value, "fields": [e.value for e in kw["fields"].elts], "contrib": kw["contrib"],
+                                                        "module": kw["module"].value, "cls": kw["cls"].value}
+                elif n == "treat_as_record":
+                    for a in c.args:
+                        self.as_record.add(a.value)
+                elif n == "external_raises":
+                    for k in c.keywords:
+                        self.external_raises[k.arg] = [e.value for e in k.value.elts]
                 elif n == "pure_function":
                     kw = {k.arg: k.value for k in c.keywords}
                     self.pure_functions[c.args[0].value] = kw.get("returns")
